@@ -224,6 +224,25 @@ def _enum_shard(args: tuple[str, str, int, int]) -> Stats:
     return stats
 
 
+def _opt_shard(args: tuple[str, str]) -> Stats:
+    """The property's `opt_cases` executed by an interpreter started with -O (asserts stripped, __debug__ false), in a subprocess."""
+    import pickle
+    import subprocess
+
+    prop_id, tier = args
+    os.makedirs(OUT_DIR, exist_ok=True)
+    out = os.path.join(OUT_DIR, f".optpass-{prop_id}-{os.getpid()}.pickle")
+    proc = subprocess.run([sys.executable, "-O", "-B", "-m", "vf.optpass", prop_id, tier, out], capture_output=True, text=True, timeout=3 * 3600)
+    if proc.returncode != 0:
+        raise RuntimeError(f"the pass under `python -O` failed (exit {proc.returncode}):\n{proc.stderr[-4000:]}")
+    try:
+        with open(out, "rb") as fil:
+            return pickle.load(fil)
+    finally:
+        if os.path.exists(out):
+            os.unlink(out)
+
+
 def _guard(fn_name: str, args: tuple) -> tuple[str, Any]:
     try:
         return "ok", globals()[fn_name](args)
@@ -362,6 +381,9 @@ def run_check(prop_id: str, tier: str) -> int:
             jobs.append(("_enum_shard", (prop_id, tier, shard, eshards)))
         exhaustive_part = True
 
+    if hasattr(prop, "opt_cases"):
+        jobs.append(("_opt_shard", (prop_id, tier)))
+
     total = Stats()
     procs = min(len(jobs), int(os.environ.get("VERIF_PROCS", "16"))) or 1
     ctx = multiprocessing.get_context("fork")
@@ -465,6 +487,11 @@ def run_replay(prop_id: str, path: str) -> int:
     with open(path, encoding="utf-8") as fil:
         doc = json.load(fil)
     case = doc["case"] if isinstance(doc, dict) and "case" in doc else doc
+    if isinstance(case, dict) and case.get("python_O") and not sys.flags.optimize:
+        # found by the pass under `python -O`: replayed by an interpreter started the same way
+        import subprocess
+
+        return subprocess.run([sys.executable, "-O", "-B", "-m", "vf.cli", prop_id, "--replay", path]).returncode
     out = prop.run_case(case)
     if out.ok:
         print(f"REPLAY property={prop_id} holds on {path}")
